@@ -76,36 +76,48 @@ def run_batches(engine_name, seed, tier, plan, prop):
   return merged, failures, skipped
 
 
-def confirm_and_write(engine_name, prop, seed, v, tier):
+def confirm_and_write(engine_name, prop, seed, candidates, tier):
   """Minimises, re-executes in a fresh interpreter, writes the replay file.
 
+  `candidates`: violations of one (class, key), in batch order.  The minimiser runs many
+  candidates in ONE child process; if the system under test keeps state between cases (a
+  process-level cache, say) the minimised case may only fail in that polluted process.  So a
+  minimised case that does not reproduce in a fresh interpreter is dropped in favour of the
+  original, unminimised case, and then of the next occurrence of the same violation.
   Returns (path, violation) or (None, reason)."""
-  hs = v['case'].get('hashseed', 0)
-  case, viol = v['case'], {k: v[k] for k in ('class', 'key', 'message') if k in v}
   budget = 60 if tier == 'quick' else 240
-  status, res = core.run_child(
-      {'engine': engine_name, 'kind': 'minimise', 'case': case, 'violation': viol,
-       'budget_s': budget}, hs, budget + 240)
-  mini = None
-  if status == 'ok':
-    case, viol = res['case'], res['violation']
-    mini = {k: res[k] for k in ('tried', 'accepted', 'size_before', 'size_after')}
-  status, res = core.run_child(
-      {'engine': engine_name, 'kind': 'replay', 'case': case}, hs, 600)
-  if status != 'ok':
-    return None, 'replay child failed: %s' % (res,)
-  hits = [x for x in res['violations']
-          if x['class'] == viol['class'] and x.get('key') == viol.get('key')]
-  if not hits:
-    return None, 'violation did not reproduce in a fresh interpreter'
-  d = os.path.join(out_dir(), 'replays', prop)
-  os.makedirs(d, exist_ok=True)
-  replay = {'property': prop, 'engine': engine_name, 'seed': seed, 'hashseed': hs,
-            'case': case, 'violation': hits[0], 'minimisation': mini}
-  path = os.path.join(d, '%d-%s.json' % (seed, core.digest(replay)[:8]))
-  with open(path, 'w') as f:
-    json.dump(replay, f, indent=1, sort_keys=True)
-  return path, hits[0]
+  reason = 'no candidate'
+  for v in candidates[:4]:
+    hs = v['case'].get('hashseed', 0)
+    viol = {k: v[k] for k in ('class', 'key', 'message') if k in v}
+    attempts = []
+    status, res = core.run_child(
+        {'engine': engine_name, 'kind': 'minimise', 'case': v['case'], 'violation': viol,
+         'budget_s': budget}, hs, budget + 240)
+    if status == 'ok':
+      attempts.append((res['case'], res['violation'],
+                       {k: res[k] for k in ('tried', 'accepted', 'size_before', 'size_after')}))
+    attempts.append((v['case'], viol, None))
+    for case, want, mini in attempts:
+      status, res = core.run_child(
+          {'engine': engine_name, 'kind': 'replay', 'case': case}, hs, 600)
+      if status != 'ok':
+        reason = 'replay child failed: %s' % (res,)
+        continue
+      hits = [x for x in res['violations']
+              if x['class'] == want['class'] and x.get('key') == want.get('key')]
+      if not hits:
+        reason = 'violation did not reproduce in a fresh interpreter'
+        continue
+      d = os.path.join(out_dir(), 'replays', prop)
+      os.makedirs(d, exist_ok=True)
+      replay = {'property': prop, 'engine': engine_name, 'seed': seed, 'hashseed': hs,
+                'case': case, 'violation': hits[0], 'minimisation': mini}
+      path = os.path.join(d, '%d-%s.json' % (seed, core.digest(replay)[:8]))
+      with open(path, 'w') as f:
+        json.dump(replay, f, indent=1, sort_keys=True)
+      return path, hits[0]
+  return None, reason
 
 
 def replay_file(path):
@@ -189,7 +201,7 @@ def run_check(prop, tier, seed):
     if k is not None:
       known_hit.setdefault((k['class'], k['key']), (k, v))
     else:
-      fresh.setdefault((v['class'], v.get('key')), v)
+      fresh.setdefault((v['class'], v.get('key')), []).append(v)
   known_lines = []
   for (_, _), (k, v) in sorted(known_hit.items()):
     line = 'KNOWN-FINDING: property=%s %s' % (prop, k['what'])
@@ -199,8 +211,7 @@ def run_check(prop, tier, seed):
   reported = 0
   nonrepro = []
   for key in sorted(fresh, key=repr)[:3]:
-    v = fresh[key]
-    path, info = confirm_and_write(engine_name, prop, seed, v, tier)
+    path, info = confirm_and_write(engine_name, prop, seed, fresh[key], tier)
     if path is None:
       nonrepro.append((key, info))
       print('HARNESS-NONREPRODUCIBLE property=%s class=%s key=%s: %s' % (
